@@ -5,6 +5,7 @@ package naga
 import (
 	"github.com/gogpu/naga/hlsl"
 	"github.com/gogpu/naga/internal/zzclike"
+	"github.com/gogpu/naga/internal/zztpl"
 	zz "github.com/gogpu/naga/internal/zzverif"
 )
 
@@ -93,4 +94,14 @@ func ZZ_C03_tv_integer_binary() {
 
 func ZZ_C03_tv_workgroup() {
 	zzRunTemplateHLSL(zzTemplatesW[zz.Choice("template", len(zzTemplatesW))])
+}
+
+// Thorough tier: every template followed by each probe template in one entry point.
+func ZZ_C03_tv_template_pairs() {
+	if !zz.Thorough() {
+		zz.Reach("end")
+		return
+	}
+	pairs := zztpl.Pairs()
+	zzRunTemplateHLSL(pairs[zz.Choice("pair", len(pairs))])
 }
